@@ -654,7 +654,10 @@ func (c *compiler) compile(tok *token) []instruction {
 		for i := len(tok.Tokens[switchCases].Tokens) - 1; i >= 0; i-- {
 			cs := tok.Tokens[switchCases].Tokens[i]
 			const caseStmt, caseBlock = 0, 1
-			csStmt := c.optimize(c.compile(cs.Tokens[caseStmt]))
+			alts := []*token{cs.Tokens[caseStmt]}
+			if alts[0].Symbol == "," {
+				alts = alts[0].Tokens
+			}
 			c.Begin()
 			csBlock := c.optimize(c.compileAll(cs.Tokens[caseBlock].Tokens))
 			for n, ins := range csBlock {
@@ -665,12 +668,19 @@ func (c *compiler) compile(tok *token) []instruction {
 			}
 			c.End()
 			var chunk []instruction
-			chunk = append(chunk, csStmt...)
-			if isValue {
-				chunk = append(chunk, instruction{Code: codeLocalGet, A: reg(v)})
-				chunk = append(chunk, instruction{Code: codeEq})
+			for k := len(alts) - 1; k >= 0; k-- {
+				test := c.optimize(c.compile(alts[k]))
+				if isValue {
+					test = append(test, instruction{Code: codeLocalGet, A: reg(v)})
+					test = append(test, instruction{Code: codeEq})
+				}
+				if k == len(alts)-1 {
+					test = append(test, instruction{Code: codeJumpFalse, A: reg(len(csBlock) + 1)})
+				} else {
+					test = append(test, instruction{Code: codeJumpTrue, A: reg(len(chunk))})
+				}
+				chunk = append(test, chunk...)
 			}
-			chunk = append(chunk, instruction{Code: codeJumpFalse, A: reg(len(csBlock) + 1)})
 			chunk = append(chunk, csBlock...)
 			chunk = append(chunk, instruction{Code: codeJump, A: reg(len(out) + len(defBlock))})
 			out = append(chunk, out...)
